@@ -87,6 +87,8 @@ type plDriver struct {
 	// concurrently with the resume's StartReadCollection)
 	ResumeFromStart bool
 	AfterStop       bool
+	// AfterBarrier: the driver becomes enabled when every shard of the first collection has signalled its barrier
+	AfterBarrier bool
 	// OldPart: the announcement is about the earlier incarnation of the partition (its old id)
 	OldPart bool
 }
@@ -103,6 +105,7 @@ type plScenario struct {
 	PointInAddPartition bool // the per-handler dropped-collection probe inside AddPartition is a scheduling point
 	MsgPosPChannel bool // message positions name the source pchannel (as the MQ layer does) instead of the vchannel
 	HeavyBound int // lower deviation bound for a scenario with many streams
+	SlowEvents bool // the event queue of the channel manager is full and its consumer takes an event only when nothing else can run
 	PartAppearsOnAnnounce bool // the source catalog lists a named partition only from the moment its creation is announced (addpart driver)
 	Kafka      bool // the downstream is Kafka: no downstream catalog, the source's own ids / channels / partitions address the messages
 	Strict     bool // strict cost model for this scenario: every choice other than the default one costs a deviation (arrival orders included)
@@ -186,6 +189,9 @@ func (t *plTarget) GetPartitionInfo(ctx context.Context, name, db string) (*mode
 func (t *plTarget) GetDatabaseName(ctx context.Context, coll, db string) (string, error) {
 	return db, nil
 }
+
+// plFillerEvent: requests of other collections that fill the event queue (the consumer discards them)
+const plFillerEvent = api.ReplicateAPIEventType(99)
 
 type plMetaOp struct {
 	api.DefaultMetaOp
@@ -430,6 +436,9 @@ type plRun struct {
 	mapSnaps       []map[string]string // channel assignment (mapping key -> image) at every scheduling point
 	dropSeen       chan struct{} // closed when the first drop request has been issued
 	announced      map[string]bool // partitions whose creation has been announced
+	barrierSignals int
+	barrierSeen    chan struct{}
+	barrierOnce    sync.Once
 	stopSeen       chan struct{} // closed when a resume driver has stopped its collection
 	stopOnce       sync.Once
 	dropSeenClosed bool
@@ -496,6 +505,7 @@ func plExecute(t *testing.T, sc *plScenario, ctl *sched.Ctl) *plRun {
 	r.dropSeen = make(chan struct{})
 	r.stopSeen = make(chan struct{})
 	r.announced = map[string]bool{}
+	r.barrierSeen = make(chan struct{})
 	r.mq = fakemq.New(plSched{r})
 	r.mq.ParkRegister = sc.ParkRegister
 	r.target = &plTarget{colls: map[string]*model.CollectionInfo{}}
@@ -573,11 +583,29 @@ func plExecute(t *testing.T, sc *plScenario, ctl *sched.Ctl) *plRun {
 	}
 	r.mgr = cm.(*replicateChannelManager)
 	r.mgr.SetCtx(ctx)
+	if sc.SlowEvents {
+		// the per-target event queue (capacity 10) is full of other requests and its consumer is slow
+		for i := 0; i < cap(r.mgr.apiEventChan); i++ {
+			r.mgr.apiEventChan <- &api.ReplicateAPIEvent{EventType: plFillerEvent}
+		}
+	}
 	util.SetVerifPointFunc(func(name, key string) {
 		if name == "pack.computed" {
 			r.hmu.Lock()
 			r.computed = append(r.computed, key)
 			r.hmu.Unlock()
+		}
+		last := false
+		if name == "barrier.signal" {
+			r.hmu.Lock()
+			r.barrierSignals++
+			last = r.barrierSignals == len(sc.Colls[0].Shards)
+			r.hmu.Unlock()
+		}
+		if last {
+			// (the gate opens when the barrier goroutine goes on from its last signal: it then runs the callback, which
+			// blocks on the full event queue within the same step)
+			defer r.barrierOnce.Do(func() { close(r.barrierSeen) })
 		}
 		if sc.Hooks != "all" && name != "pack.computed" && name != "barrier.signal" {
 			return
@@ -587,10 +615,16 @@ func plExecute(t *testing.T, sc *plScenario, ctl *sched.Ctl) *plRun {
 	// event consumer: plays the writer - applies create events to the downstream catalog
 	go func() {
 		for {
+			if sc.SlowEvents {
+				r.pt("z-events", "take", false) // (sorts last: the consumer runs when nothing else can)
+			}
 			select {
 			case <-ctx.Done():
 				return
 			case e := <-r.mgr.apiEventChan:
+				if e.EventType == plFillerEvent {
+					continue
+				}
 				r.hmu.Lock()
 				snap := map[string]int{}
 				for k, v := range r.delivered {
@@ -616,6 +650,9 @@ func plExecute(t *testing.T, sc *plScenario, ctl *sched.Ctl) *plRun {
 			}
 			if d.AfterStop {
 				<-r.stopSeen
+			}
+			if d.AfterBarrier {
+				<-r.barrierSeen
 			}
 			r.pt("drv:"+name, "go", true)
 			c := sc.Colls[d.Coll]
